@@ -783,7 +783,7 @@ func genCase(r *vkit.Run, idx int, hostOfService string, localIPs []string) case
 		}
 		if !strings.HasPrefix(target, "/") && !absRe.MatchString(target) {
 			if n == 2 {
-				// keep pipelined pairs well-formed
+				// keep two-request connections well-formed
 				target = "/" + target
 			} else if q.Lenient == "" {
 				q.Lenient = "empty or relative request target"
@@ -794,7 +794,7 @@ func genCase(r *vkit.Run, idx int, hostOfService string, localIPs []string) case
 			q.Proto = "HTTP/1.0"
 		}
 		if n == 2 && q.Lenient != "" {
-			// keep pipelined pairs well-formed: replace an invalid method
+			// keep two-request connections well-formed: replace an invalid method
 			q.Method, q.MethodKind, q.Lenient = "FOO", "garbage", ""
 		}
 		genHeaders(rng, &q, hostOfService, n == 2 && k == 0)
@@ -1027,7 +1027,8 @@ type outcome struct {
 	Peer     string // address the service saw: our local address
 	DialErr  string
 	Resps    []respT
-	Recs     []backendRec
+	RecsBy   [][]backendRec // per request: what the back-end recorded while it was outstanding
+	Late     []backendRec   // recorded after the last response was complete
 	ProxyErr []string
 	Timeout  bool
 }
@@ -1048,16 +1049,23 @@ func runCase(f *fixture, fi int, c caseT) outcome {
 		o.DialErr = err.Error()
 		return o
 	}
-	defer conn.Close()
+	defer func() {
+		// reset instead of FIN: no TIME_WAIT on the client side, so that large
+		// case lists do not exhaust the per-address ephemeral ports
+		if tc, ok := conn.(*net.TCPConn); ok {
+			_ = tc.SetLinger(0)
+		}
+		_ = conn.Close()
+	}()
 	o.Peer = conn.LocalAddr().String()
 	_ = conn.SetDeadline(time.Now().Add(60 * time.Second))
-	var buf []byte
-	for i := range c.Reqs {
-		buf = append(buf, c.Reqs[i].wire()...)
-	}
-	_, werr := conn.Write(buf)
 	br := bufio.NewReader(conn)
+	o.RecsBy = make([][]backendRec, len(c.Reqs))
 	for i := range c.Reqs {
+		// One request at a time: everything the back-end records between the
+		// write and the complete response belongs to this request.
+		nb := f.taken()
+		_, werr := conn.Write(c.Reqs[i].wire())
 		resp, rerr := http.ReadResponse(br, &http.Request{Method: c.Reqs[i].Method})
 		if rerr != nil {
 			rt := respT{Err: rerr.Error()}
@@ -1068,6 +1076,7 @@ func runCase(f *fixture, fi int, c caseT) outcome {
 				o.Timeout = true
 			}
 			o.Resps = append(o.Resps, rt)
+			o.RecsBy[i] = f.since(nb)
 			break
 		}
 		body, berr := io.ReadAll(io.LimitReader(resp.Body, 1<<16))
@@ -1080,11 +1089,17 @@ func runCase(f *fixture, fi int, c caseT) outcome {
 			}
 		}
 		o.Resps = append(o.Resps, rt)
-		if resp.Close {
+		o.RecsBy[i] = f.since(nb)
+		if resp.Close || berr != nil {
 			break
 		}
 	}
-	o.Recs = f.since(n0)
+	o.Late = f.since(n0 + func() (n int) {
+		for _, x := range o.RecsBy {
+			n += len(x)
+		}
+		return n
+	}())
 	if e1 := f.ec.count(); e1 > e0 {
 		f.ec.mu.Lock()
 		o.ProxyErr = append([]string(nil), f.ec.errs[e0:e1]...)
@@ -1198,7 +1213,7 @@ func (j *judge) witness(o *outcome, k int, v verdict, extra map[string]any) map[
 		"target":           trunc(q.Target, 300),
 		"model":            v,
 		"target_url_path":  o.Base,
-		"backend_received": o.Recs,
+		"backend_received": o.RecsBy[k],
 		"generator":        map[string]any{"path_mode": q.PathMode, "hdr_kind": q.HdrKind, "conn_kind": q.ConnKind, "body_kind": q.BodyKind, "lenient": q.Lenient},
 	}
 	if k < len(o.Resps) {
@@ -1207,45 +1222,12 @@ func (j *judge) witness(o *outcome, k int, v verdict, extra map[string]any) map[
 		w["response"] = rs
 	}
 	if len(o.C.Reqs) > 1 {
-		w["pipelined_with"] = trunc(string(o.C.Reqs[1-k].wire()), 500)
+		w["same_connection_as"] = trunc(string(o.C.Reqs[1-k].wire()), 500)
 	}
 	for a, b := range extra {
 		w[a] = b
 	}
 	return w
-}
-
-// attribute maps the back-end records of a case to its requests.
-func attribute(o *outcome) (by [][]int, unattributed []int) {
-	by = make([][]int, len(o.C.Reqs))
-	for ri, rec := range o.Recs {
-		found := -1
-		tok := rec.Header.Get("X-Verif-Case")
-		for k := range o.C.Reqs {
-			if tok != "" && tok == o.C.Reqs[k].Token {
-				found = k
-			}
-		}
-		if found < 0 && len(o.C.Reqs) == 1 {
-			found = 0
-		}
-		if found < 0 {
-			_, bp, _ := splitTarget(rec.RequestURI)
-			for k := range o.C.Reqs {
-				_, cp, _ := splitTarget(o.C.Reqs[k].Target)
-				if cp != "" && strings.HasSuffix(bp, cp) {
-					found = k
-					break
-				}
-			}
-		}
-		if found < 0 {
-			unattributed = append(unattributed, ri)
-			continue
-		}
-		by[found] = append(by[found], ri)
-	}
-	return by, unattributed
 }
 
 func (j *judge) evaluate(o *outcome) {
@@ -1258,16 +1240,21 @@ func (j *judge) evaluate(o *outcome) {
 		r.Bucket("watchdog_timeouts", 1)
 		return
 	}
-	by, un := attribute(o)
-	if len(un) > 0 {
-		r.Bucket("backend_requests_unattributed", int64(len(un)))
-		by[0] = append(by[0], un...) // still subject to every invariant
+	if len(o.Late) > 0 {
+		// cannot happen with a back-end that records before it answers; if
+		// it does, the records are judged with the last request
+		r.Bucket("backend_requests_after_response", int64(len(o.Late)))
+		last := len(o.Resps) - 1
+		if last < 0 {
+			last = 0
+		}
+		o.RecsBy[last] = append(o.RecsBy[last], o.Late...)
 	}
 	peerIP := hostOf(o.Peer)
 	for k := range o.C.Reqs {
 		q := &o.C.Reqs[k]
 		v := classify(q.Method, q.Target)
-		recs := by[k]
+		recs := o.RecsBy[k]
 		contacted := len(recs) > 0
 		r.Eval(classKey(q, v), v.APIFirst || contacted)
 		r.Bucket("requests_sent", 1)
@@ -1306,8 +1293,8 @@ func (j *judge) evaluate(o *outcome) {
 		}
 
 		// (2) invariants of every request the back-end received
-		for _, ri := range recs {
-			rec := &o.Recs[ri]
+		for ri := range recs {
+			rec := &recs[ri]
 			r.Bucket("backend_requests", 1)
 			j.peersFwd[peerIP] = struct{}{}
 			_, bp, _ := splitTarget(rec.RequestURI)
@@ -1435,7 +1422,7 @@ func (j *judge) evaluate(o *outcome) {
 		if o.C.Idx%211 == 3 && k == 0 {
 			var br any
 			if contacted {
-				br = o.Recs[recs[0]]
+				br = recs[0]
 			}
 			st := 0
 			if answered {
@@ -1465,7 +1452,7 @@ func usableLocalIPs() []string {
 func TestCheck(t *testing.T) {
 	r := vkit.Start(t, "C19", "exploration")
 	defer r.Finish()
-	r.Rule("20 hand-written requests (documented shapes, the repository test's near misses, plainest hostile forms), then seeded cases; each case = 1 (7%: 2 pipelined) raw HTTP/1.x request(s) on a fresh TCP connection from one of several 127/8 client addresses: " +
+	r.Rule("20 hand-written requests (documented shapes, the repository test's near misses, plainest hostile forms), then seeded cases; each case = 1 (7%: 2 consecutive, keep-alive) raw HTTP/1.x request(s) on a fresh TCP connection from one of several 127/8 client addresses: " +
 		"method {GET,POST,HEAD,PUT,DELETE,OPTIONS,PATCH,lower/mixed case,garbage tokens,non-tokens} x target " +
 		"(documented template with 0-2 edits | random grammar of 0-6 segments from {id,empty,.,..,%2e%2e,%2e,%2F,status,long,utf-8/escaped,api words,encoded api words,specials,domain} | " +
 		"prefix-escape patterns | fixed paths; optional query; origin/absolute/asterisk/authority/no-slash form) x header set " +
@@ -1501,32 +1488,37 @@ func TestCheck(t *testing.T) {
 	}
 
 	fixed := fixedCases(ips)
-	n := r.N(6000, 80000)
-	outs := make([]outcome, n)
-	var wg sync.WaitGroup
-	for w := 0; w < workers; w++ {
-		wg.Add(1)
-		go func(w int) {
-			defer wg.Done()
-			for idx := w; idx < n; idx += workers {
-				// the Host/absolute-form generator uses a fixed service name so
-				// that a case does not depend on the port that was allocated
-				var c caseT
-				if idx < len(fixed) {
-					c = fixed[idx]
-				} else {
-					c = genCase(r, idx, "127.0.0.1:8080", ips)
-				}
-				outs[idx] = runCase(fx[w], w, c)
-			}
-		}(w)
-	}
-	wg.Wait()
-
+	n := r.N(30000, 600000)
 	j := &judge{r: r, peersFwd: map[string]struct{}{}}
-	for i := range outs {
-		j.evaluate(&outs[i])
-		outs[i] = outcome{}
+	// Cases are executed in batches by the workers (case i on fixture i mod
+	// workers, strictly one case at a time per fixture) and judged in index
+	// order, so that the first witness of a class does not depend on timing.
+	const batch = 20000
+	for lo := 0; lo < n; lo += batch {
+		hi := min(lo+batch, n)
+		outs := make([]outcome, hi-lo)
+		var wg sync.WaitGroup
+		for w := 0; w < workers; w++ {
+			wg.Add(1)
+			go func(w int) {
+				defer wg.Done()
+				for idx := lo + (w-lo%workers+workers)%workers; idx < hi; idx += workers {
+					var c caseT
+					if idx < len(fixed) {
+						c = fixed[idx]
+					} else {
+						// the Host/absolute-form generator uses a fixed service
+						// name so that a case does not depend on the allocated port
+						c = genCase(r, idx, "127.0.0.1:8080", ips)
+					}
+					outs[idx-lo] = runCase(fx[idx%workers], idx%workers, c)
+				}
+			}(w)
+		}
+		wg.Wait()
+		for i := range outs {
+			j.evaluate(&outs[i])
+		}
 	}
 	r.Bucket("distinct_peer_addresses_forwarded", int64(len(j.peersFwd)))
 	nerr := 0
